@@ -399,4 +399,14 @@ def equivInstrs : List Instruction → List Instruction → Bool
   | _, _ => false
 end
 
+/-- program-level guard of the equivalence clause: no two calibrations whose keys are distinct as built become
+the same key once their parameter expressions are printed and read back (`norm`).  `Program` keys its calibrations
+by the identifier INCLUDING the parameter expressions, compared structurally, while the literal `-1.0` and the
+prefix minus `-(1.0)` print alike: two such calibrations are one after the round trip (observation, see
+docs/C04.md; `C04_counterexample_calibrationKeys`). -/
+def calKeysStable (l : List Instruction) : Bool :=
+  (l.filterMap fun i => match i with
+    | .calibrationDefinition id _ => some ({ id with parameters := id.parameters.map QV.ExprPrint.norm } : CalibrationIdentifier)
+    | _ => none).Nodup
+
 end QV.C04
